@@ -169,7 +169,12 @@ def verify_relational(make_ctx, reg, name, timeout_ms=10000):
             ob.path = pid
             if ob.kind == "safety":
                 continue
-            smt.discharge(ob, ctx.facts, timeout_ms=timeout_ms)
+            from .vcgen import fn_budget_s
+            if time.time() - t0 > fn_budget_s():
+                ob.verdict, ob.backend, ob.time, ob.model = "undecided", "none", 0.0, None
+                ob.note = "function budget of %.0f s exhausted before this obligation was attempted" % fn_budget_s()
+            else:
+                smt.discharge(ob, ctx.facts, timeout_ms=timeout_ms)
             if ob.verdict == "refuted" and ob.model is not None:
                 ob.cex = model_inputs(run, ob.model)
             rep.obligations.append(ob)
